@@ -326,6 +326,8 @@ def run(ctx):
                     got = "None"
                 elif any(is_some(x) for x in alts):
                     got = "Some"
+            if got is None:
+                got = _timestamp_for_variant(gat, "AggregationMode", v["name"])
             chk.ob("C10.c", f"AggregationMode::{v['name']} [timestamp]", got == want, f"documented `{want}` and implemented `{got}`" if got == want else f"documented to send {'a' if want == 'Some' else 'no'} timestamp, but get_aggregation_timestamp returns {got} for this mode", gat.loc())
     else:
         chk.unrecognised("C10.c", "<anchor> AggregationMode / get_aggregation_timestamp", "missing")
@@ -423,6 +425,79 @@ def run(ctx):
         chk.ob("C10.d", hr.path, ok, "record -> push on the active storage" if ok else f"record does {got}", hr.loc(), nontrivial=False)
 
     _imports(ctx)
+
+
+def _timestamp_for_variant(fn, enum_suffix, variant):
+    """What fn returns when the aggregation mode is `variant`, when the mode is first turned into a bool by a helper
+    (`fn sends_timestamps() -> bool { match mode { A => false, B => true } }`, spliced in) and the bool is branched on:
+    the arm's constant is carried along the paths from that arm.  'Some' / 'None' / None (cannot tell)."""
+    b = fn.body
+    sy = Sym(fn)
+    start = None
+    for s_ in range(b.n):
+        t = b.term(s_)
+        if t["k"] == "switch" and (t.get("enum") or "").endswith(enum_suffix):
+            covered = {a.get("variant") for a in t["arms"]}
+            for lab, tg in b.switch_edges(s_):
+                if lab == variant or (lab == "otherwise" and variant not in covered):
+                    start = tg
+    if start is None:
+        return None
+    outcomes = set()
+    seen = set()
+    work = [(start, ())]
+    while work:
+        bb, env = work.pop()
+        if (bb, env) in seen or len(seen) > 400:
+            continue
+        seen.add((bb, env))
+        e = dict(env)
+        for st in b.blocks[bb]["s"]:
+            if st["k"] != "assign" or st["p"].get("pr"):
+                continue
+            rv = st["rv"]
+            l = st["p"]["l"]
+            if rv["k"] == "use" and "const" in rv["a"] and "bool" in rv["a"]["const"]:
+                e[l] = bool(rv["a"]["const"]["bool"])
+            elif rv["k"] == "use" and (rv["a"].get("copy") or rv["a"].get("move")) and not (rv["a"].get("copy") or rv["a"].get("move")).get("pr") and (rv["a"].get("copy") or rv["a"].get("move"))["l"] in e:
+                e[l] = e[(rv["a"].get("copy") or rv["a"].get("move"))["l"]]
+            elif rv["k"] == "un" and rv.get("op") == "Not" and (rv["a"].get("copy") or rv["a"].get("move") or {}).get("l") in e:
+                e[l] = not e[(rv["a"].get("copy") or rv["a"].get("move"))["l"]]
+            else:
+                e.pop(l, None)
+            if l == 0:
+                v = strip_sym(sy.rvalue(rv, 0, frozenset()))
+                if v[0] == "agg" and v[2] in ("Some", "None"):
+                    outcomes.add(v[2])
+                elif any(isinstance(y, tuple) and y and y[0] == "call" and sym_is_call(y, "duration_since", "SystemTime::now") for y in sym_walk(v)):
+                    outcomes.add("Some")
+                else:
+                    outcomes.add("?")
+        t = b.term(bb)
+        env2 = tuple(sorted(e.items()))
+        if t["k"] == "switch" and t.get("dty") == "bool":
+            d = t["discr"].get("copy") or t["discr"].get("move") or {}
+            if not d.get("pr") and d.get("l") in e:
+                vals = [a["v"] for a in t["arms"]]
+                for lab, tg in b.switch_edges(bb):
+                    truth = (not bool(vals[0]) if len(vals) == 1 else None) if lab == "otherwise" else bool(lab)
+                    if truth == e[d["l"]]:
+                        work.append((tg, env2))
+                continue
+        if t["k"] == "call" and t.get("dest") and not t["dest"].get("pr"):
+            e.pop(t["dest"]["l"], None)
+            env2 = tuple(sorted(e.items()))
+            if t["dest"]["l"] == 0:
+                r_ = t.get("resolved") or t.get("callee") or ""
+                outcomes.add("None" if "from_residual" in r_ else ("Some" if any(w in r_ for w in ("duration_since", "::map", "::ok")) else "?"))
+        for nx in b.succ(bb):
+            if not b.blocks[nx].get("cleanup"):
+                work.append((nx, env2))
+    if outcomes == {"None"}:
+        return "None"
+    if "Some" in outcomes and "?" not in outcomes:
+        return "Some"
+    return None
 
 
 def _forwarder_rules(ctx):
